@@ -4,9 +4,9 @@
    strategy is heuristic (delete until stuck, then fill hole pixels until stuck, ...); only its
    result matters: Proofs/EulerSearchC15.v proves [reduce ... = Some k -> Reduces2 l im k], so that
    by C15_euler_reducible_topological 4 W = 4 k = 4 (components - holes) for that image.
-   (The move predicates are defined in Proofs/EulerStepC15.v / EulerTopoC15.v, hence the imports.) *)
+   The move predicates are those of Spec/EulerMovesC15.v. *)
 From Coq Require Import ZArith List Bool.
-From Centro Require Import Base.Sx Base.GraphC15 Model.LabelGraph Spec.LabelGraph Proofs.EulerStepC15 Proofs.EulerTopoC15.
+From Centro Require Import Base.Sx Base.GraphC15 Model.LabelGraph Spec.LabelGraph Spec.EulerMovesC15.
 Import ListNotations.
 Open Scope Z_scope.
 
